@@ -23,12 +23,16 @@
 //!   `thread::park_timeout` so everything compiles, but loom tests must not
 //!   exercise timeout paths.
 
-#[cfg(not(loom))]
+#[cfg(not(any(loom, excsn_fibre_verif)))]
 mod real;
 #[cfg(loom)]
 mod mocked;
+#[cfg(all(excsn_fibre_verif, not(loom)))]
+pub(crate) mod verif;
 
-#[cfg(not(loom))]
+#[cfg(not(any(loom, excsn_fibre_verif)))]
 pub(crate) use real::*;
 #[cfg(loom)]
 pub(crate) use mocked::*;
+#[cfg(all(excsn_fibre_verif, not(loom)))]
+pub(crate) use verif::*;
